@@ -161,6 +161,39 @@ pub fn c18() -> i32 {
             }
         }
     }
+    // checksum reports that never find a partner: sparse saving (irregular report frames), or one
+    // peer that saves without checksums, with and without loss
+    for (w, desync) in [(8usize, 1u32), (2, 3), (8, 7)] {
+        for variant in 0..3 {
+            for lossy in [false, true] {
+                let sparse = variant == 0;
+                let mut s = base_scn("c18-unmatched-checksums", "1+1", w, 0, sparse, Pred::RepeatLast, Program::Changing, 1);
+                for p in s.peers.iter_mut() {
+                    p.desync = desync;
+                }
+                if variant == 1 {
+                    s.no_checksum = vec![0];
+                }
+                if variant == 2 {
+                    s.peers[1].tick_every = 2;
+                }
+                if lossy {
+                    s.background = Background { loss_every: 5, delay_every: 11, stall_every: 0 };
+                    let (a, b) = (s.peers[0].addr, s.peers[1].addr);
+                    let mut st = 40;
+                    while st < rounds {
+                        s.outages.push(Outage { from: b, to: a, start: st, len: 3, classes: 1 << K_CHECKSUM });
+                        st += 37;
+                    }
+                }
+                s.name = format!("{} desync={desync} variant={variant} lossy={lossy}", s.name);
+                s.horizon = rounds;
+                s.probe = 0;
+                s.checks = CK_C02 | CK_C04;
+                scns.push(s);
+            }
+        }
+    }
     // every remote peer is lost (dies, or is disconnected explicitly) and the survivor goes on
     for (tp, deaths) in [("1+1", vec![1usize]), ("1+1+1", vec![1, 2]), ("2+1", vec![1])] {
         for w in [0usize, 1, 8] {
